@@ -269,7 +269,11 @@ Proof.
     + reflexivity.
 Qed.
 
-(* the class decides which `const` runs; one unfolding of the model's layout_const, for any `rec` *)
+(* the class decides which `const` runs; one unfolding of the model's layout_const, for any `rec`.
+   UnionLayout.const's guard `init is not None and not isinstance(init, Const) and len(init) > 1` is translated with
+   `isinstance(init, Const)` = False (an `init` is an int or a mapping, never a lib.data.Const; the lib.data.Const
+   initialiser is the XDConst constructor of Data.xinit, see DataP.union_const_passthrough), folded structurally by
+   the translator; a guard without that conjunct is refused by the unit ("expected tests not found"). *)
 Definition layout_const_step (rec : layout -> init -> resz) (l : layout) (i : init) : resz :=
   match i with
   | IVal _ => Errz 4
